@@ -17,6 +17,7 @@ pub mod c13;
 pub mod c14;
 pub mod c15;
 pub mod c16;
+pub mod c17;
 
 pub fn run(prop: &str, cfg: &Cfg, rep: &mut Report) -> bool {
     match prop {
@@ -36,6 +37,7 @@ pub fn run(prop: &str, cfg: &Cfg, rep: &mut Report) -> bool {
         "C14" => c14::run(cfg, rep),
         "C15" => c15::run(cfg, rep),
         "C16" => c16::run(cfg, rep),
+        "C17" => c17::run(cfg, rep),
         _ => return false,
     }
     true
